@@ -6,7 +6,7 @@ import RSVerif.Model.State
 import RSVerif.Model.Iter
 import RSVerif.Model.Spec
 import RSVerif.Proofs.Inv
-import RSVerif.Properties.C01
+import RSVerif.Proofs.RestoredBasic
 
 namespace RS
 
